@@ -37,3 +37,10 @@ pub fn verif_repeat_take_collect(x: u64, n: usize) -> (v: Vec<u64>)
 // ---- T1
 pub assume_specification<T, A: core::alloc::Allocator> [Vec::<T, A>::into_boxed_slice](v: Vec<T, A>) -> (b: Box<[T], A>)
     ensures b@ == v@;
+pub assume_specification [u64::checked_shl] (a: u64, s: u32) -> (r: Option<u64>)
+    ensures s < 64 ==> r == Some(a << s), s >= 64 ==> r is None;
+#[verifier::external_body]
+pub fn verif_iter_map_collect<F: Fn(&u64) -> u64>(s: &[u64], f: F) -> (v: Vec<u64>)
+    requires forall|i: int| 0 <= i < s@.len() ==> f.requires((&s[i],)),
+    ensures v@.len() == s@.len(), forall|i: int| 0 <= i < s@.len() ==> f.ensures((&s[i],), v@[i]),
+{ s.iter().map(f).collect() }
